@@ -198,7 +198,9 @@ class Conc:
             if n["form"] == "for":
                 data = self.rnd.choice([", ", ","]).join(fmtnum((i + 1) * self.vscale) for i in range(n["cnt"]))
                 a = [f'var="{n["lv"]}"', f'data="{data}"']
-                if self.rnd.random() < 0.3:
+                if n["rd"] != "-":
+                    a.append(f'idx-var="{n["rd"]}"')
+                elif self.rnd.random() < 0.3:
                     a.append('idx-var="unusedidx"')
                 return f'<for {" ".join(a)}>{kids}</for>{nl}'
             if n["form"] == "count":
